@@ -255,8 +255,7 @@ class DTypeNode(Node):
         self.children = {
             "content": get_tree(state["content"], load_context, trusted=trusted)
         }
-        # TODO: what should we trust?
-        self.trusted = self._get_trusted(trusted, [])
+        self.trusted = self._get_trusted(trusted, [np.dtype])
 
     def _construct(self):
         # we use numpy's internal save mechanism to store the dtype by
